@@ -18,7 +18,7 @@ PID = 'C01'
 RULE = ('cases = (package, extinction law, A_V range, sources) drawn from the quantifier of C01; a case is '
         'non-trivial when at least one model is fitted with >=2 fitted bands of distinct extinction coefficient; '
         'distinct = distinct canonical hash of the generated inputs')
-REQUIRED_BRANCHES = ['pkg_v1_mJy', 'pkg_v1_Jy', 'pkg_cube', 'pkg_cube_memmap', 'range_end_zero', 'law_other_unit', 'clamp_low', 'clamp_high', 'interior', 'lo_eq_hi', 'limit_violated', 'limit_ok', 'flag4', 'flag0or9']
+REQUIRED_BRANCHES = ['rebuilt_in_place', 'wav_filter_other_unit', 'pkg_v1_mJy', 'pkg_v1_Jy', 'pkg_cube', 'pkg_cube_memmap', 'range_end_zero', 'law_other_unit', 'clamp_low', 'clamp_high', 'interior', 'lo_eq_hi', 'limit_violated', 'limit_ok', 'flag4', 'flag0or9']
 ASSUMPTIONS = ['IEEE rounding is not modelled: comparison tolerance 1e-9 x condition number',
                'decisions closer than 1e-7 to their threshold are compared in relaxed mode']
 N = {'quick': 160, 'thorough': 3000}
@@ -85,8 +85,22 @@ def gen_case(rng, directed=None):
     # how the model fluxes reach the fitter: convolved-flux files in mJy or Jy (version 1), or a cube package fitted at
     # tabulated wavelengths (version 2; with use_memmap the fluxes are held as float32)
     pkg = rng.choice(['v1_mJy', 'v1_mJy', 'v1_Jy', 'cube', 'cube_memmap'])
+    # wavelength "filters" of a cube package may be given in any length unit
+    filt_units = [rng.choice(['micron', 'micron', 'nm', 'Angstrom', 'mm', 'cm']) for _ in wavs]
+    # a share of cases first builds and fits a DIFFERENT package in the same directory (a package regenerated in
+    # place within one process), so that anything remembered across packages by path would show
+    rebuild = rng.random() < 0.25
     return dict(kind=kind, wavs=wavs, tab_w=tw, tab_chi=chi, wav_unit=wav_unit, models=models, av=av, sources=sources,
-                pkg=pkg)
+                pkg=pkg, filt_units=filt_units, rebuild=rebuild)
+
+
+def fitter_wavs(case):
+    """the filter wavelengths in micron as the fitter derives them (a wavelength filter given in another unit is
+    converted to micron when stored in Models.wavelengths)"""
+    from astropy import units as u
+    if case.get('pkg', '').startswith('cube') and case.get('filt_units'):
+        return [float((w * u.micron).to(u.Unit(un)).to(u.micron).value) for w, un in zip(case['wavs'], case['filt_units'])]
+    return [float(w) for w in case['wavs']]
 
 
 def fluxes_mJy(case):
@@ -104,7 +118,7 @@ def table_in_unit(case):
     unit = u.Unit(case.get('wav_unit', 'micron'))
     tab = (np.array(case['tab_w'], dtype=float) * u.micron).to(unit).value
     v = float(([0.55] * u.micron).to(unit).value[0])
-    w = (np.array(case['wavs'], dtype=float) * u.micron).to(unit).value
+    w = (np.array(fitter_wavs(case), dtype=float) * u.micron).to(unit).value
     return unit, [float(x) for x in tab], v, [float(x) for x in w]
 
 
@@ -134,7 +148,8 @@ def build(case, scratch_dir):
             for jj, w in enumerate(allw):
                 val[i, 0, jj] = case['models'][i][case['wavs'].index(w)] if w in case['wavs'] else 1. + i + jj
         pk.write_cube_package(d, names, allw, val, val * 0.1, apertures_au=[100.], aperture_dependent=False)
-        fnames = [w * u.micron for w in case['wavs']]
+        units = case.get('filt_units') or ['micron'] * len(case['wavs'])
+        fnames = [(w * u.micron).to(u.Unit(un)) for w, un in zip(case['wavs'], units)]
         fitter = pk.make_fitter(d, fnames, [1.] * len(fnames), ext, case['av'], use_memmap=(pkg == 'cube_memmap'))
         return fitter, names
     pk.write_conf(d, aperture_dependent=False)
@@ -225,10 +240,22 @@ def run_case(case):
     branches = set()
     relaxed = 0
     try:
+        if case.get('rebuild'):
+            decoy = dict(case)
+            decoy['models'] = [[float('%.4g' % (x * (1.7 + 0.3 * ((i + j) % 5)))) for j, x in enumerate(mf)][::-1]
+                               for i, mf in enumerate(case['models'])][::-1]
+            f0, _ = build(decoy, d)
+            s0 = case['sources'][0]
+            with common.quiet():
+                f0.fit(pk.make_source('decoy', s0['flags'], s0['flux'], s0['err']))
+            del f0
+            branches.add('rebuilt_in_place')
         fitter, names = build(case, d)
         lo, hi = case['av']
         if lo == hi:
             branches.add('lo_eq_hi')
+        if case.get('pkg', '').startswith('cube') and any(un != 'micron' for un in case.get('filt_units', [])):
+            branches.add('wav_filter_other_unit')
         if lo == 0 or hi == 0:
             branches.add('range_end_zero')
         if case.get('wav_unit', 'micron') != 'micron':
